@@ -1,5 +1,6 @@
 import Driver.Suite
 import SunriseVerif.Model.CL
+import SunriseVerif.Model.CLAccrualAbs
 /-! Line-protocol suite `cl` for the concentrated-liquidity model. -/
 namespace Sunrise.Driver.CLSuite
 open Sunrise Sunrise.Driver Sunrise.CL
@@ -8,6 +9,7 @@ structure DSt where
   s : St := {}
   prev : St := {}
   accs : List String := []
+  k : Nat := 0     -- upper bound on the banker's-rounded reward products formed so far (CLAccrual.St.k)
 
 def dec (x : String) : Option Dec := Dec.ofString? x
 def int (x : String) : Int := x.toInt?.getD 0
@@ -40,6 +42,7 @@ def dumpPool (d : DSt) (id : Nat) : List String :=
         | none => ["accum absent"])
     ++ ((d.s.accPos.filter (·.pool == id)).map fun a => s!"accpos {a.posId} shares={a.shares} per={DecCoins.render a.perShare} unclaimed={DecCoins.render a.unclaimed}")
     ++ [balLine (poolAddr id), balLine (feesAddr id)] ++ d.accs.map balLine
+    ++ [CLAccrual.invLine d.s id ds d.k]
 
 /-- apply a handler result with transaction atomicity -/
 def fin {α} (d : DSt) (r : Res (St × α)) (f : α → String) : DSt × List String :=
@@ -99,7 +102,10 @@ def step (d : DSt) : List String → DSt × List String
 def step' (d : DSt) (ts : List String) : DSt × List String :=
   match ts with
   | ["undo"] => ({ d with s := d.prev }, [])
-  | _ => let (d', out) := step d ts; ({ d' with prev := d.s }, out)
+  | _ =>
+    -- every operation rounds at most two products per position it touches (claim + re-checkpoint)
+    let (d', out) := step d ts
+    ({ d' with prev := d.s, k := if ts.head? == some "reset" then 0 else d.k + 2 * ts.foldl (fun n t => n + (t.splitOn ",").length) 1 }, out)
 
 def run := runSuite ({} : DSt) step'
 end Sunrise.Driver.CLSuite
